@@ -345,7 +345,9 @@ def partition(n, cuts):
 
 @clause('metrics', strategy=metric_case, quick=400, thorough=20000,
         quick_shards=8, thorough_shards=16, shrink=False,
-        rule='value streams (1-24 bounded floats, also fed as Python scalars and '
+        rule='(every sixth case also a 120000-value stream in updates of '
+        '60000 / 50000 / 1000 for Welford and Average) '
+        'value streams (1-24 bounded floats, also fed as Python scalars and '
         'as rank-2 (rows, k) blocks)'
         ' and label/logit streams x two random partitions into batches: '
         'Average / Welford (mean, population std, standard error) / Accuracy '
@@ -444,5 +446,35 @@ def metrics(case, ctx):
         float(w.compute().mean), 3.0) and np.isclose(
             float(w.compute().standard_deviation), 1.0),
             'reset did not clear the metric')
-  ctx.note(labels=['scalars' if case['scalars'] else 'arrays', f'block{blk}'],
+  big = case['seed'] % 6 == 0
+  if big:
+    # long streams (per-token losses): batching independence must also hold
+    # when batch size x values seen so far exceeds 2**31
+    N = 120000
+    # (with a drift, so that batch means differ from the running mean)
+    stream = (rng.normal(size=(N,)) * 1.7 + np.linspace(0.0, 3.0, N)
+              ).astype(np.float32)
+    cut = [60000, 50000, 1000][case['seed'] // 6 % 3]
+    ref_mean, ref_std = float(stream.astype(np.float64).mean()), float(
+        stream.astype(np.float64).std())
+    for fresh in (True, False):
+      with sut('Welford/Average (long stream)'):
+        w2, a2 = nnx.metrics.Welford(), nnx.metrics.Average()
+        if not fresh:
+          w2.update(values=jnp.asarray([1.0, 5.0]))
+          w2.reset()
+        for lo in range(0, N, cut):
+          w2.update(values=jnp.asarray(stream[lo:lo + cut]))
+          a2.update(values=jnp.asarray(stream[lo:lo + cut]))
+        st2 = w2.compute()
+      require(np.isclose(float(st2.mean), ref_mean, rtol=2e-3, atol=2e-3)
+              and np.isclose(float(st2.standard_deviation), ref_std,
+                             rtol=5e-3), lambda: f'Welford over {N} values in '
+              f'updates of {cut}: mean {float(st2.mean)}, std '
+              f'{float(st2.standard_deviation)}; the stream has mean '
+              f'{ref_mean}, std {ref_std}')
+      require(np.isclose(float(a2.compute()), ref_mean, rtol=2e-3, atol=2e-3),
+              f'Average over {N} values in updates of {cut} differs')
+  ctx.note(labels=['scalars' if case['scalars'] else 'arrays', f'block{blk}']
+           + (['long-stream'] if big else []),
            nontrivial=pa != pb and len(pa) >= 2 and len(pb) >= 2)
